@@ -19,14 +19,22 @@ typedef struct S_struct___mpq_struct MPQ;
 #define P2(k) (((i128)1) << (k))
 /* number of significant limbs and magnitude of an mpz (limbs beyond |_mp_size| are garbage and never read) */
 static inline uint32_t m_n(const MPZ *m){ int32_t s = (int32_t)m->f1; return s < 0 ? (uint32_t)0 - (uint32_t)s : (uint32_t)s; }
+#ifdef __cplusplus
+/* native (real GMP): only the significant limbs exist */
 static inline u128 m_mag(const MPZ *m){ uint32_t n = m_n(m); u128 v = 0; if (n >= 1) v = m->f2[0]; if (n >= 2) v |= (u128)m->f2[1] << 64; return v; }
+static inline uint64_t m_top(const MPZ *m){ uint32_t n = m_n(m); return n == 0 ? 1 : m->f2[n - 1]; }
+#else
+/* model: the limb array always has 2 limbs; both are read, only the significant ones are used */
+static inline u128 m_mag(const MPZ *m){ uint32_t n = m_n(m); uint64_t d0 = m->f2[0], d1 = m->f2[1]; return n == 0 ? (u128)0 : (n == 1 ? (u128)d0 : (((u128)d1 << 64) | d0)); }
+static inline uint64_t m_top(const MPZ *m){ uint32_t n = m_n(m); uint64_t d0 = m->f2[0], d1 = m->f2[1]; return n == 0 ? 1 : (n == 1 ? d0 : d1); }
+#endif
 /* the mathematical integer denoted by an mpz with at most 2 limbs and magnitude below 2^127 */
 static inline i128 m_val(const MPZ *m){ return (int32_t)m->f1 < 0 ? -(i128)m_mag(m) : (i128)m_mag(m); }
 /* representation invariant (GMP's own): |_mp_size| limbs are significant, the top one is not zero; model: at most 2 limbs,
  * 2 allocated; lim bounds the magnitude */
 static inline bool m_ok(const MPZ *m, i128 lim){
   uint32_t n = m_n(m);
-  return n <= NLIMB && (int32_t)m->f0 >= NLIMB && (n == 0 || m->f2[n - 1] != 0) && m_mag(m) < (u128)lim; }
+  return n <= NLIMB && (int32_t)m->f0 >= NLIMB && m_top(m) != 0 && m_mag(m) < (u128)lim; }
 /* the same value from the three scalars (used with __CPROVER_old, which cannot wrap a function call) */
 static inline i128 v3(uint32_t size, uint64_t d0, uint64_t d1){
   int32_t s = (int32_t)size; uint32_t n = s < 0 ? (uint32_t)0 - (uint32_t)s : (uint32_t)s;
